@@ -78,9 +78,12 @@ func (b *BFS) exec(hist []uint8) (ok bool, key string, viol []Violation, panicS 
 		en, v := s.Apply(int(o), last)
 		if !en {
 			if !last {
-				panic(fmt.Sprintf("mc: replay diverged: op %d (%s) of %v not enabled", i, b.OpName(int(o)), b.names(hist)))
+				// a prefix that was executed before is refused now: the code's answer depends on something outside the
+				// history (Go map iteration order). Reported under its own key, the history is not expanded.
+				return false, "", []Violation{{Key: b.Res.Property + "|" + b.Res.Part + "|nondeterministic-replay",
+					What: fmt.Sprintf("event %d (%s) of the history %v was accepted when the history was first executed and is refused on re-execution: the outcome depends on something outside the event history (map iteration order?)", i, b.OpName(int(o)), b.names(hist))}}, ""
 			}
-			return false, "", nil, ""
+			return false, "", v, "" // (a harness may judge a refusal: violations of a transition that did not take place are kept)
 		}
 		if last {
 			viol = append(viol, v...)
@@ -153,7 +156,13 @@ func (b *BFS) Run() {
 								break
 							}
 							if !ok2 {
-								panic("mc: enabledness differs between repeats of " + fmt.Sprint(b.names(hist)))
+								// the code under check answered the same history differently (Go map iteration order): not an
+								// engine error; the transition is kept with its first outcome, both outcomes are judged
+								res.Count("map_order_enabledness_differences", 1)
+								if len(viol2) > 0 && len(o.viol) == 0 {
+									o.viol = viol2
+								}
+								continue
 							}
 							if len(viol2) > 0 && len(o.viol) == 0 {
 								o.viol = viol2
@@ -181,6 +190,12 @@ func (b *BFS) Run() {
 		for i := range outs {
 			o := &outs[i]
 			if !o.ok {
+				if len(o.viol) > 0 { // a refused event whose refusal the harness judged
+					hist := append(append([]uint8{}, frontier[o.parent]...), uint8(o.op))
+					for _, v := range o.viol {
+						res.Violate(b.confirm(v, hist))
+					}
+				}
 				continue
 			}
 			res.Transitions++
